@@ -46,6 +46,10 @@ type FuncContract struct {
 	PureIf     *Clause // the function writes nothing visible to callers when this holds at entry
 	NoSafety   bool // do not emit safety obligations (function only used as a callee contract)
 	Calls      []*CallSpec
+	OnlyAt     []string // "p.f": of field f (of p's struct type) only the object p is written; all other objects keep f
+	FreshRefs  bool     // use the axiom that unknown heap arrays hold only pre-existing (or escaped) references
+	Preserves  []string // fields whose value in every pre-existing object is the same after the call (return or panic)
+	DynPreserves []string // fields that code reached through dynamic calls is assumed to leave unchanged
 	AssumeLoads string // spec predicate assumed of every interface value loaded from a struct field / slice element
 	Stable     []string // slices whose backing arrays are assumed not to be written during the call
 	Split      []string // case-split expressions (each obligation proved per case)
@@ -64,6 +68,18 @@ type CallSpec struct {
 	When     string
 	Negative bool
 	Clause   *Clause
+}
+
+// StableField: "stablefield[P] Type.field writers=f1,f2": the field of an existing object
+// is never reassigned: every store to it is to an object allocated in the same function,
+// or occurs in one of the listed functions.  Checked syntactically over all packages;
+// the verifier then never havocs the field.
+type StableField struct {
+	Pkg, Type, Field string
+	Writers          []string
+	Props            []string
+	File             string
+	Line             int
 }
 
 // SpecFunc is a specification function: either a macro over contract expressions or a
@@ -97,6 +113,8 @@ type ContractSet struct {
 	SMTRaw  []string // raw SMT-LIB commands (declare-fun, axioms) – listed as assumptions
 	Lemmas  []*Lemma
 	Tables  []*TableFact
+	StableFields []*StableField
+	Slots   map[string]*FuncContract // contracts of function-valued struct fields: "pkg.Type.field"
 	Files   []string
 	Axioms  []string
 }
@@ -105,7 +123,7 @@ var clauseRe = regexp.MustCompile(`^([a-z_]+)(?:@(\d+))?(?:\[([A-Za-z0-9_,. ]+)\
 
 // loadContracts reads every contracts_verif*.go file in the repository packages.
 func loadContracts() (*ContractSet, error) {
-	cs := &ContractSet{Funcs: map[string]*FuncContract{}, Specs: map[string]*SpecFunc{}}
+	cs := &ContractSet{Funcs: map[string]*FuncContract{}, Specs: map[string]*SpecFunc{}, Slots: map[string]*FuncContract{}}
 	dirs := map[string]string{"otto": repoDir, "parser": repoDir + "/parser", "ast": repoDir + "/ast",
 		"file": repoDir + "/file", "token": repoDir + "/token", "registry": repoDir + "/registry"}
 	var pkgs []string
@@ -180,6 +198,11 @@ func (cs *ContractSet) parseFile(path, pkg string) error {
 			cur = &FuncContract{Key: key, Pkg: pkg, Invariants: map[int][]*Clause{}, Decreases: map[int]*Clause{}, File: path, Line: line}
 			cs.Funcs[key] = cur
 			lastText = nil
+		case "slot":
+			key := pkg + "." + rest
+			cur = &FuncContract{Key: "slot " + key, Pkg: pkg, Invariants: map[int][]*Clause{}, Decreases: map[int]*Clause{}, File: path, Line: line, Trusted: true}
+			cs.Slots[key] = cur
+			lastText = nil
 		case "spec", "smt":
 			sf, err := parseSpec(rest, kw == "smt")
 			if err != nil {
@@ -192,6 +215,29 @@ func (cs *ContractSet) parseFile(path, pkg string) error {
 		case "smtraw":
 			cs.SMTRaw = append(cs.SMTRaw, rest)
 			lastText = &cs.SMTRaw[len(cs.SMTRaw)-1]
+			cur = nil
+		case "stablefield":
+			sf := &StableField{Pkg: pkg, Props: props, File: path, Line: line}
+			fields := strings.Fields(rest)
+			if len(fields) == 0 || !strings.Contains(fields[0], ".") {
+				return fmt.Errorf("%s:%d: stablefield needs Type.field", path, line)
+			}
+			tf := strings.SplitN(fields[0], ".", 2)
+			sf.Type, sf.Field = tf[0], tf[1]
+			for _, f := range fields[1:] {
+				if strings.HasPrefix(f, "writers=") {
+					for _, w := range strings.Split(strings.TrimPrefix(f, "writers="), ",") {
+						if w != "" {
+							if !strings.Contains(strings.SplitN(w, "(", 2)[0], ".") || strings.HasPrefix(w, "(") {
+								w = pkg + "." + w
+							}
+							sf.Writers = append(sf.Writers, w)
+						}
+					}
+				}
+			}
+			cs.StableFields = append(cs.StableFields, sf)
+			lastText = nil
 			cur = nil
 		case "table":
 			// table[P] global.field = function
@@ -282,6 +328,29 @@ func (cs *ContractSet) parseFile(path, pkg string) error {
 				cs.Clause = cl
 				cur.Calls = append(cur.Calls, cs)
 				lastText = nil
+			case "writes_only_at":
+				for _, x := range strings.Split(rest, ",") {
+					if x = strings.TrimSpace(x); x != "" {
+						cur.OnlyAt = append(cur.OnlyAt, x)
+					}
+				}
+				lastText = nil
+			case "fresh_refs":
+				cur.FreshRefs = true
+			case "preserves":
+				for _, x := range strings.Split(rest, ",") {
+					if x = strings.TrimSpace(x); x != "" {
+						cur.Preserves = append(cur.Preserves, x)
+					}
+				}
+				lastText = nil
+			case "dyn_preserves":
+				for _, x := range strings.Split(rest, ",") {
+					if x = strings.TrimSpace(x); x != "" {
+						cur.DynPreserves = append(cur.DynPreserves, x)
+					}
+				}
+				lastText = nil
 			case "assume_loads":
 				cur.AssumeLoads = rest
 				lastText = nil
@@ -363,7 +432,9 @@ func parseCallSpec(s, pkg string) (*CallSpec, error) {
 		return nil, fmt.Errorf("calls clause needs F(args)")
 	}
 	callee := strings.TrimSpace(s[:open])
-	if strings.HasPrefix(callee, "(") || !strings.Contains(callee, ".") {
+	if callee == "select" {
+		// pseudo-callee: a select statement polling the channel given as argument
+	} else if strings.HasPrefix(callee, "(") || !strings.Contains(callee, ".") {
 		callee = pkg + "." + callee
 	}
 	cs := &CallSpec{Callee: callee, When: when, As: as}
